@@ -9,7 +9,7 @@ from .core import (And, If, Iff, Implies, Not, Or, SymBool, SymBytes, SymInt, Sy
                    Control, PathAbort, Stop, Unsupported, Unwound, Violation, ConcreteFailure,
                    ReplayMismatch, assume, choice, concrete_value, is_symbolic, mk_bytes, note,
                    require, sym_bool, sym_bytes, sym_int, sym_real, tick, unsupported)
-from .strs import SymStr, SymText, mk_str, sym_str, text_of  # noqa
+from .strs import SymStr, SymText, contains, mk_str, sym_str, text_of  # noqa
 
 
 def mode():
